@@ -157,14 +157,14 @@ def check_logical(text):
     # remove splices the specification allows: backslash immediately before newline(s) outside tokens
     raw = raw_tokens(text)
     pieces = []
-    i = 0
-    while i < len(raw):
-        if raw[i].type == "\\" and i + 1 < len(raw) and raw[i + 1].type == "NEWLINE":
-            i += 2
+    for t in raw:
+        # a NEWLINE directly after a pending backslash token is a splice; after the splice an earlier stray
+        # backslash is again directly before the next NEWLINE (the stream works on its buffer, so splices cascade)
+        if t.type == "NEWLINE" and pieces and pieces[-1] == ("\\", "\\"):
+            pieces.pop()
             continue
-        pieces.append(raw[i].value)
-        i += 1
-    if "".join(pieces) == got:
+        pieces.append((t.type, t.value))
+    if "".join(v for _, v in pieces) == got:
         return None
     return "logical token texts do not reproduce the input minus the documented omissions"
 
